@@ -26,6 +26,11 @@ import (
 	"github.com/mdlayher/ndp"
 )
 
+// errNotPrepared is returned by Apply when a Plugin depends on data sources
+// which are only populated by Prepare, and Prepare has not been called yet
+// because the network interface has not been initialized.
+var errNotPrepared = errors.New("plugin is not prepared: interface is not initialized yet")
+
 // A Plugin specifies a CoreRAD plugin's configuration.
 type Plugin interface {
 	// Name is the string name of the plugin.
@@ -301,6 +306,11 @@ func (p *Prefix) Prepare(ifi *net.Interface) error {
 
 // Apply implements Plugin.
 func (p *Prefix) Apply(ra *ndp.RouterAdvertisement) error {
+	if (p.Auto && p.Addrs == nil) || (p.Deprecated && p.TimeNow == nil) {
+		// Prepare has not been called yet.
+		return errNotPrepared
+	}
+
 	if !p.Auto {
 		// User specified an exact prefix so apply it directly.
 		p.apply([]netip.Prefix{p.Prefix}, ra)
@@ -493,6 +503,11 @@ func (r *Route) Prepare(_ *net.Interface) error {
 
 // Apply implements Plugin.
 func (r *Route) Apply(ra *ndp.RouterAdvertisement) error {
+	if (r.Auto && r.Routes == nil) || (r.Deprecated && r.TimeNow == nil) {
+		// Prepare has not been called yet.
+		return errNotPrepared
+	}
+
 	if !r.Auto {
 		// User specified an exact route so apply it directly.
 		r.apply([]netip.Prefix{r.Prefix}, ra)
@@ -656,6 +671,11 @@ func (r *RDNSS) Prepare(ifi *net.Interface) error {
 
 // Apply implements Plugin.
 func (r *RDNSS) Apply(ra *ndp.RouterAdvertisement) error {
+	if r.Auto && r.Addrs == nil {
+		// Prepare has not been called yet.
+		return errNotPrepared
+	}
+
 	if !r.Auto {
 		// User specified exact servers so apply them directly.
 		r.apply(r.Servers, ra)
